@@ -1,6 +1,5 @@
-import SaModel.Lemmas.C02Any
+import SaModel.Lemmas.C02TypedStruct
 import SaModel.Lemmas.C02DecodeAt
-import SaModel.Read.Cast
 /-
 C02 — deserializing any valid Arrow array yields exactly its logical content.
 Property theorems only.  Model: SaModel/Read/Reader.lean (`Fixes.all`); specification: SaModel/Spec/Decode.lean
@@ -11,6 +10,9 @@ in its slot-wise form SaModel/Spec/DecodeAt.lean; rendering of logical values: S
   (`physical`) and the strings are well-formed UTF-8, `deserialize_any` returns exactly `toD a lv`.
 * `C02_layout_irrelevant`: the result is a function of the decoded value and the type skeleton only, so any two
   arrays that decode alike read alike — every layout freedom of the statement is an instance.
+* `decodeAll_eq_decodeAt`: the slot-wise oracle used everywhere is `Spec.decodeAll` / `Spec.decode`.
+* `read_typed_decode`: typed reads (every target shape, any nesting) return what the value-level specification `cast`
+  demands; `null_*_reads_hidden_data` + witness: known finding #23.
 -/
 namespace SaModel.Props.C02
 open SaModel SaModel.Read SaModel.Spec
@@ -91,5 +93,179 @@ example :
     let canon : Arr := .list false none [0, 2, 3] ⟨"element", false, []⟩ (.prim .int32 none [1, 2, 3])
     let odd : Arr := .list false none [2, 4, 5] ⟨"element", false, []⟩ (.prim .int32 none [9, 9, 1, 2, 3, 9])
     (List.range 2).map (readAny Fixes.all canon) = (List.range 2).map (readAny Fixes.all odd) := by decide
+
+/-! ### typed reads (proof: `Lemmas/C02TypedGet.lean`, `C02TypedLeaf.lean`, `C02TypedCont.lean`, `C02TypedStruct.lean`)
+
+`cast t a lv` (SaModel/Read/Cast.lean, total, structural over the target) is the value-level meaning of reading a slot
+with logical value `lv` of array `a` into the Rust type `t`: records by field name, tuples by position, numbers by
+value, `Option` by null-ness, enums by variant name / index.  `Sound t`: whenever `cast t` demands a value `d` of a slot
+whose Arrow reading is defined, `readAs t` returns exactly `d`. -/
+
+mutual
+theorem read_typed_sound : ∀ (t : Target), Sound t
+  | .any => sound_any
+  | .ignored => sound_ignored
+  | .unit => sound_scalar (m := .unit) rfl (fun _ _ => by simp only [Read.cast]) (fun _ _ _ => by simp only [readAs])
+  | .unitStruct => sound_scalar (m := .unitStruct) rfl (fun _ _ => by simp only [Read.cast]) (fun _ _ _ => by simp only [readAs])
+  | .bool => sound_scalar (m := .bool) rfl (fun _ _ => by simp only [Read.cast]) (fun _ _ _ => by simp only [readAs])
+  | .int ty => sound_scalar (m := .int ty) rfl (fun _ _ => by simp only [Read.cast]) (fun _ _ _ => by simp only [readAs])
+  | .f32 => sound_scalar (m := .f32) rfl (fun _ _ => by simp only [Read.cast]) (fun _ _ _ => by simp only [readAs])
+  | .f64 => sound_scalar (m := .f64) rfl (fun _ _ => by simp only [Read.cast]) (fun _ _ _ => by simp only [readAs])
+  | .char => sound_scalar (m := .char) rfl (fun _ _ => by simp only [Read.cast]) (fun _ _ _ => by simp only [readAs])
+  | .string => sound_scalar (m := .string) rfl (fun _ _ => by simp only [Read.cast]) (fun _ _ _ => by simp only [readAs])
+  | .str => sound_scalar (m := .str) rfl (fun _ _ => by simp only [Read.cast]) (fun _ _ _ => by simp only [readAs])
+  | .bytes => sound_scalar (m := .bytes) rfl (fun _ _ => by simp only [Read.cast])
+      (fun a _ hl => by cases a <;> first | exact absurd rfl (hl _ _ _ _ _) | simp only [readAs])
+  | .byteBuf => sound_scalar (m := .byteBuf) rfl (fun _ _ => by simp only [Read.cast])
+      (fun a _ hl => by cases a <;> first | exact absurd rfl (hl _ _ _ _ _) | simp only [readAs])
+  | .option t => sound_option (read_typed_sound t)
+  | .newtype t => sound_newtype (read_typed_sound t)
+  | .seq t => sound_seq (read_typed_sound t)
+  | .tuple ts => sound_tuple (targets_sound ts)
+  | .tupleStruct ts => sound_tupleStruct (targets_sound ts)
+  | .map k v => sound_map (read_typed_sound k) (read_typed_sound v)
+  | .struct tfs => sound_struct (tfields_sound tfs)
+  | .enum _ vs => sound_enum (variants_sound vs)
+theorem targets_sound : ∀ (ts : Targets), ∀ t ∈ Targets.toList ts, Sound t
+  | .nil, t, h => by simp [Targets.toList] at h
+  | .cons t' rest, t, h => by
+    simp only [Targets.toList, List.mem_cons] at h
+    rcases h with h | h
+    · rw [h]; exact read_typed_sound t'
+    · exact targets_sound rest t h
+theorem tfields_sound : ∀ (tfs : TFields), ∀ p ∈ TFields.toList tfs, Sound p.2
+  | .nil, p, h => by simp [TFields.toList] at h
+  | .cons n t' rest, p, h => by
+    simp only [TFields.toList, List.mem_cons] at h
+    rcases h with h | h
+    · rw [h]; exact read_typed_sound t'
+    · exact tfields_sound rest p h
+theorem variants_sound : ∀ (vs : TVariants), ∀ p ∈ TVariants.toList vs, KSound p.2
+  | .nil, p, h => by simp [TVariants.toList] at h
+  | .cons n k rest, p, h => by
+    simp only [TVariants.toList, List.mem_cons] at h
+    rcases h with h | h
+    · rw [h]; exact kind_sound k
+    · exact variants_sound rest p h
+theorem kind_sound : ∀ (k : VKind), KSound k
+  | .unit => ksound_unit
+  | .newtype t => ksound_newtype (read_typed_sound t)
+  | .tuple ts => ksound_tuple (targets_sound ts)
+  | .struct tfs => ksound_struct (tfields_sound tfs)
+end
+
+/-- C02 for typed reads: for EVERY target type `t` (scalars, `Option`, newtype, `Vec`, tuples and tuple structs, maps,
+structs by field name, enums by variant name or index, nested to any depth), EVERY array `a` and slot `i` whose Arrow
+reading is defined, under the hypotheses of `read_any_decode`: whatever the value-level specification demands
+(`cast t a lv = must d`) is what the typed read returns.  `cast` demands nothing (`na`) where the reader does not
+support the pair, and says `mustFail` for a null slot and a non-Option target — what the code does there for container
+columns is `null_*_reads_hidden_data` below (known finding C02-null-container-into-non-option). -/
+theorem read_typed_decode (t : Target) (a : Arr) (i : Nat) (lv : LVal) (d : DVal)
+    (h : decodeAt a i = .ok lv) (hn : new Fixes.all a = .ok ()) (hp : physical a = true) (hu : utf8Ok lv = true)
+    (hc : Read.cast t a lv = must d) : readAs Fixes.all t a i = .ok d :=
+  read_typed_sound t a i lv d h hn hp hu hc
+
+/-- the same, stated with the materialising oracle `Spec.decode` -/
+theorem read_typed_decode_spec (t : Target) (a : Arr) (i : Nat) (lv : LVal) (d : DVal)
+    (h : Spec.decode a i = .ok lv) (hn : new Fixes.all a = .ok ()) (hp : physical a = true) (hu : utf8Ok lv = true)
+    (hc : Read.cast t a lv = must d) : readAs Fixes.all t a i = .ok d :=
+  read_typed_decode t a i lv d (decode_eq_decodeAt a i ▸ h) hn hp hu hc
+
+/-- `Option` targets on null slots of every column kind (containers included): `None` -/
+theorem read_option_null (t : Target) (a : Arr) (i : Nat)
+    (h : decodeAt a i = .ok .null) (hn : new Fixes.all a = .ok ()) (hp : physical a = true) :
+    readAs Fixes.all (.option t) a i = .ok .none :=
+  read_typed_decode (.option t) a i .null .none h hn hp rfl (by simp only [Read.cast])
+
+/-- typed reads return the same for any two arrays / slots with the same decoded value and claim (layout freedoms) -/
+theorem C02_typed_layout_irrelevant (t : Target) (a b : Arr) (i j : Nat) (lv : LVal) (d : DVal)
+    (ha : decodeAt a i = .ok lv) (hb : decodeAt b j = .ok lv)
+    (hna : new Fixes.all a = .ok ()) (hnb : new Fixes.all b = .ok ())
+    (hpa : physical a = true) (hpb : physical b = true) (hu : utf8Ok lv = true)
+    (hca : Read.cast t a lv = must d) (hcb : Read.cast t b lv = must d) :
+    readAs Fixes.all t a i = readAs Fixes.all t b j := by
+  rw [read_typed_decode t a i lv d ha hna hpa hu hca, read_typed_decode t b j lv d hb hnb hpb hu hcb]
+
+/-! non-vacuity (computed): a struct column with a null-able int, a list of strings and a dense union, read into a
+derived struct (fields in another order, one missing `Option` field, one column field without target), a tuple, a map
+and enums by name / by index: hypotheses hold, `cast` demands a value, and the read returns it -/
+def exCol : Arr :=
+  .struct 2 (some ⟨[0b11], 0⟩)
+    (.cons ⟨"a", true, []⟩ (.prim .int32 (some ⟨[0b01], 0⟩) [7, 9])
+    (.cons ⟨"b", false, []⟩ (.list false none [1, 3, 3] ⟨"element", false, []⟩ (.bytes .utf8 none [0, 1, 2, 4] [120, 121, 122, 122]))
+    (.cons ⟨"u", false, []⟩ (.union [1, 0] (some [0, 0])
+        (.cons 0 ⟨"N", false, []⟩ (.null 1) (.cons 1 ⟨"I", false, []⟩ (.prim .int64 none [5]) .nil))) .nil)))
+
+def exTargets : List Target :=
+  [ .struct (.cons "b" (.seq .string) (.cons "a" (.option (.int .i64)) (.cons "zz" (.option .bool) .nil))),
+    .tuple (.cons (.option (.int .i32)) (.cons (.seq .str) .nil)),
+    .map .string .any,
+    .struct (.cons "u" (.enum false (.cons "N" .unit (.cons "I" (.newtype (.int .i16)) .nil))) .nil),
+    .struct (.cons "u" (.enum true (.cons "N" .unit (.cons "I" (.newtype (.int .u8)) .nil))) .nil),
+    .option (.newtype (.struct (.cons "a" (.option (.int .i16)) .nil))) ]
+
+def exLv (i : Nat) : LVal := match decodeAt exCol i with | .ok lv => lv | .error _ => .null
+
+def isMust : Claim → Bool
+  | .ok (some _) => true
+  | _ => false
+
+theorem isMust_elim {c : Claim} (h : isMust c = true) : ∃ d, c = must d := by
+  unfold isMust at h
+  split at h
+  · exact ⟨_, rfl⟩
+  · cases h
+
+example : ∀ i ∈ [0, 1], ∀ t ∈ exTargets, exLv i ≠ .null ∧
+    ∃ d, Read.cast t exCol (exLv i) = must d ∧ readAs Fixes.all t exCol i = .ok d := by
+  have hn : new Fixes.all exCol = .ok () := by decide
+  have hp : physical exCol = true := by decide
+  have hd : ∀ i ∈ [0, 1], decodeAt exCol i = .ok (exLv i) ∧ utf8Ok (exLv i) = true ∧ exLv i ≠ .null ∧
+      exTargets.all (fun t => isMust (Read.cast t exCol (exLv i))) = true := by decide
+  intro i hi t ht
+  obtain ⟨h1, h2, h3, h4⟩ := hd i hi
+  obtain ⟨d, hc⟩ := isMust_elim (List.all_eq_true.mp h4 t ht)
+  exact ⟨h3, d, hc, read_typed_decode t exCol i (exLv i) d h1 hn hp h2 hc⟩
+
+/-! ### known finding C02-null-container-into-non-option (#23): what the code does
+
+The typed reads of the Struct / List / LargeList / FixedSizeList / Map readers never consult the validity bitmap: the
+read of a null slot into a non-Option target is the read of the same slot with the bitmap removed — by
+`read_typed_decode` on that array, the data hidden under the null (`cast` says such a read must fail). -/
+
+theorem null_struct_reads_hidden_data (t : Target) (len : Nat) (v : Option Bits) (fs : ArrFields) (i : Nat)
+    (ht : (∃ ts, t = .tuple ts) ∨ (∃ ts, t = .tupleStruct ts) ∨ (∃ k w, t = .map k w) ∨ (∃ tfs, t = .struct tfs)) :
+    readAs Fixes.all t (.struct len v fs) i = readAs Fixes.all t (.struct len none fs) i := by
+  rcases ht with ⟨ts, rfl⟩ | ⟨ts, rfl⟩ | ⟨k, w, rfl⟩ | ⟨tfs, rfl⟩ <;> simp only [readAs, tupleVisit, structVisit]
+
+theorem null_list_reads_hidden_data (t : Target) (lg : Bool) (v : Option Bits) (offs : List Int) (fm : FieldMeta) (el : Arr) (i : Nat) :
+    readAs Fixes.all (.seq t) (.list lg v offs fm el) i = readAs Fixes.all (.seq t) (.list lg none offs fm el) i := by
+  simp only [readAs]
+
+theorem null_fsl_reads_hidden_data (t : Target) (len : Nat) (v : Option Bits) (n : Int) (fm : FieldMeta) (el : Arr) (i : Nat) :
+    readAs Fixes.all (.seq t) (.fixedSizeList len v n fm el) i = readAs Fixes.all (.seq t) (.fixedSizeList len none n fm el) i := by
+  simp only [readAs]
+
+theorem null_map_reads_hidden_data (k w : Target) (v : Option Bits) (offs : List Int) (mm : MapMeta) (ks vs : Arr) (i : Nat) :
+    readAs Fixes.all (.map k w) (.map v offs mm ks vs) i = readAs Fixes.all (.map k w) (.map none offs mm ks vs) i := by
+  simp only [readAs]
+
+/-- witness: the slot is null, the specification says the read must fail, the code returns the hidden `(42,)` /
+`[1, 2]` / `{1: 2}`; the same slots into `Option` targets are `None` -/
+theorem null_container_into_non_option_witness :
+    let a : Arr := .struct 1 (some ⟨[0], 0⟩) (.cons ⟨"x", false, []⟩ (.prim .int32 none [42]) .nil)
+    let t : Target := .tuple (.cons (.int .i32) .nil)
+    let l : Arr := .list false (some ⟨[0], 0⟩) [0, 2] ⟨"element", false, []⟩ (.prim .int32 none [1, 2])
+    let m : Arr := .map (some ⟨[0], 0⟩) [0, 1] ⟨"entries", false, ⟨"key", false, []⟩, ⟨"value", false, []⟩⟩
+      (.prim .int8 none [1]) (.prim .int8 none [2])
+    decodeAt a 0 = .ok .null ∧ new Fixes.all a = .ok () ∧
+    Read.cast t a .null = mustFail "null into a non-Option target" ∧
+    readAs Fixes.all t a 0 = .ok (.seq (.cons (.int .i32 42) .nil)) ∧
+    readAs Fixes.all (.option t) a 0 = .ok .none ∧
+    decodeAt l 0 = .ok .null ∧ Read.cast (.seq (.int .i32)) l .null = mustFail "null into a non-Option target" ∧
+    readAs Fixes.all (.seq (.int .i32)) l 0 = .ok (.seq (.cons (.int .i32 1) (.cons (.int .i32 2) .nil))) ∧
+    readAs Fixes.all (.option (.seq (.int .i32))) l 0 = .ok .none ∧
+    decodeAt m 0 = .ok .null ∧ Read.cast (.map (.int .u8) (.int .u8)) m .null = mustFail "null into a non-Option target" ∧
+    readAs Fixes.all (.map (.int .u8) (.int .u8)) m 0 = .ok (.map (.cons (.int .u8 1) (.int .u8 2) .nil)) := by decide
 
 end SaModel.Props.C02
